@@ -24,10 +24,14 @@ fn ref_indices<T: PartialOrd>(e: &[T], v: &T) -> Option<(usize, usize)> {
     None
 }
 
-fn check_edges<T: Ord + Clone + Debug>(tag: &str, input: Vec<T>, probes: &[T], lx: &mut Local) -> u64 {
-    let mut want = input.clone();
+/// `key` maps an element to the harness's own ordered image of it: the identity for i32 / N64, the
+/// wrapped integer for the crate's `NotNone<i32>` (whose hand-written `Ord` is part of what is checked,
+/// so the reference must not sort or compare with it).
+fn check_edges<T: Ord + Clone + Debug, K: Ord + Clone + Debug>(tag: &str, input: Vec<T>, probes: &[T], key: &dyn Fn(&T) -> K, lx: &mut Local) -> u64 {
+    let mut want: Vec<K> = input.iter().map(key).collect();
     want.sort();
     want.dedup();
+    let keys = |v: &[T]| -> Vec<K> { v.iter().map(key).collect() };
     let mut obs: Vec<String> = Vec::new();
     for via in 0..5u8 {
         let via_array = via > 0;
@@ -56,18 +60,18 @@ fn check_edges<T: Ord + Clone + Debug>(tag: &str, input: Vec<T>, probes: &[T], l
                 Edges::from(Array1::from(rev).slice_move(ndarray::s![..;-1]))
             }
         };
-        let got: Vec<T> = edges.iter().cloned().collect();
+        let got: Vec<K> = edges.iter().map(key).collect();
         lx.check(got == want, "C13/edges-not-sorted-distinct", || format!("{}: Edges::from({:?}) (construction variant {}: 0 Vec, 1 fresh Array1, 2 narrowed, 3 stepped, 4 reversed owned Array1; via_array={}) holds {:?}, expected {:?}", tag, input, via, via_array, got, want));
         lx.check(edges.len() == want.len() && edges.is_empty() == want.is_empty(), "C13/edges-len", || format!("{}: Edges::from({:?}).len() = {}, expected {}", tag, input, edges.len(), want.len()));
-        lx.check(edges.as_array_view().to_vec() == want, "C13/edges-array-view", || format!("{}: as_array_view of {:?}", tag, input));
+        lx.check(keys(&edges.as_array_view().to_vec()) == want, "C13/edges-array-view", || format!("{}: as_array_view of {:?}", tag, input));
         for i in 0..edges.len().min(want.len()) {
-            lx.check(edges[i] == want[i], "C13/edges-index", || format!("{}: edges[{}] of {:?}", tag, i, input));
+            lx.check(key(&edges[i]) == want[i], "C13/edges-index", || format!("{}: edges[{}] of {:?}", tag, i, input));
         }
         let bins = Bins::new(edges.clone());
         let nb = want.len().saturating_sub(1);
         lx.check(bins.len() == nb && bins.is_empty() == (nb == 0), "C13/bins-len", || format!("{}: Bins over {:?}: len() = {}, expected {}", tag, want, bins.len(), nb));
         for v in probes {
-            let r = ref_indices(&want, v);
+            let r = ref_indices(&want, &key(v));
             let g = guarded(|| edges.indices_of(v));
             match &g {
                 Err(m) => lx.fail("C13/lookup-panic", || format!("{}: Edges {:?} indices_of({:?}) panicked: {}", tag, want, v, m)),
@@ -77,23 +81,30 @@ fn check_edges<T: Ord + Clone + Debug>(tag: &str, input: Vec<T>, probes: &[T], l
             }
             let io = guarded(|| bins.index_of(v)).unwrap_or(None);
             lx.check(io == r.map(|t| t.0), "C13/bins-index-of", || format!("{}: Bins {:?}: index_of({:?}) = {:?}, expected {:?}", tag, want, v, io, r.map(|t| t.0)));
-            let ro = guarded(|| bins.range_of(v)).unwrap_or(None);
+            let ro = guarded(|| bins.range_of(v)).unwrap_or(None).map(|rg| key(&rg.start)..key(&rg.end));
             let want_range = r.map(|(a, b)| want[a].clone()..want[b].clone());
             lx.check(ro == want_range, "C13/bins-range-of", || format!("{}: Bins {:?}: range_of({:?}) = {:?}, expected {:?}", tag, want, v, ro, want_range));
             if let (Some(i), Some(rg)) = (io, ro.clone()) {
                 if i < nb {
                     let bi = bins.index(i);
-                    lx.check(bi == rg, "C13/bins-index-vs-range-of", || format!("{}: Bins {:?}: index(index_of({:?})) = {:?} but range_of = {:?}", tag, want, v, bi, rg));
+                    lx.check((key(&bi.start)..key(&bi.end)) == rg, "C13/bins-index-vs-range-of", || format!("{}: Bins {:?}: index(index_of({:?})) = {:?} but range_of = {:?}", tag, want, v, bi, rg));
                 }
             }
             obs.push(format!("{:?}", g.ok()));
         }
         for i in 0..nb {
             let bi = bins.index(i);
-            lx.check(bi == (want[i].clone()..want[i + 1].clone()), "C13/bins-index", || format!("{}: Bins {:?}: index({}) = {:?}", tag, want, i, bi));
+            lx.check((key(&bi.start)..key(&bi.end)) == (want[i].clone()..want[i + 1].clone()), "C13/bins-index", || format!("{}: Bins {:?}: index({}) = {:?}", tag, want, i, bi));
         }
     }
     hash_of(&(format!("{:?}", want), obs))
+}
+
+/// the crate's own ordered wrapper (what a non-missing `Option<i32>` is handed out as)
+type NotNoneI32 = <Option<i32> as ndarray_stats::MaybeNan>::NotNan;
+fn nn(v: i32) -> NotNoneI32 {
+    use ndarray_stats::MaybeNan;
+    Some(v).try_as_not_nan().unwrap().clone()
 }
 
 const GRID_SETS: [&[i32]; 5] = [&[], &[0], &[0, 4], &[0, 4, 8], &[8, 0, 4, 4]];
@@ -111,7 +122,7 @@ fn main() {
     let cases = (0..=lmax).flat_map(|l| sequences(l, 6)).map(|d| EdgeCase { digits: d });
     rep.run_sub(
         "edges-and-bins",
-        &format!("every sequence of length 0..={} over {{0,2,4,6,8,10}} via From<Vec> and From<Array1>, probes -1..=11 (odd = strictly between, even = on an edge), element types i32 and N64", lmax),
+        &format!("every sequence of length 0..={} over {{0,2,4,6,8,10}} via From<Vec> and From<Array1>, probes -1..=11 (odd = strictly between, even = on an edge), element types i32, N64 and (length <= 5) NotNone<i32>, the crate's own ordered wrapper, judged through the wrapped integers", lmax),
         cases,
         |c, lx| {
             let mut dd = c.digits.clone();
@@ -121,7 +132,12 @@ fn main() {
             lx.single(|lx| {
                 let vi: Vec<i32> = c.digits.iter().map(|&d| d as i32 * 2).collect();
                 let pi: Vec<i32> = (-1..=11).collect();
-                let h1 = check_edges("i32", vi, &pi, lx);
+                let h1 = check_edges("i32", vi.clone(), &pi, &|x: &i32| *x, lx);
+                if c.digits.len() <= 5 {
+                    let vn: Vec<NotNoneI32> = vi.iter().map(|&v| nn(v)).collect();
+                    let pn: Vec<NotNoneI32> = pi.iter().map(|&v| nn(v)).collect();
+                    check_edges("NotNone<i32>", vn, &pn, &|x: &NotNoneI32| **x, lx);
+                }
                 let vf: Vec<N64> = c.digits.iter().map(|&d| n64(d as f64 * 0.2 - 0.3)).collect();
                 // probes: every edge value, midpoints, below, above
                 let mut pf: Vec<N64> = Vec::new();
@@ -132,7 +148,7 @@ fn main() {
                         pf.push(n64(((k - 1) / 2) as f64 * 0.2 - 0.3 + 0.1));
                     }
                 }
-                let h2 = check_edges("N64", vf, &pf, lx);
+                let h2 = check_edges("N64", vf, &pf, &|x: &N64| *x, lx);
                 hash_of(&(h1, h2))
             });
         },
@@ -155,7 +171,7 @@ fn main() {
                     _ => (0..m).map(|i| sorted[(i * 7 + 3) % m]).chain(sorted.iter().cloned()).collect(),
                 };
                 let probes: Vec<i32> = (-1..=2 * m as i32).collect();
-                check_edges("i32-many", input, &probes, lx)
+                check_edges("i32-many", input, &probes, &|x: &i32| *x, lx)
             });
         },
     );
